@@ -48,7 +48,8 @@ def main():
     rep = core.Report(a.prop, a.tier, a.seed, level_of(a.prop, mod))
     rep.assumptions += list(getattr(mod, "ASSUMPTIONS", []))
     rep.trusted += list(getattr(mod, "TRUSTED", []))
-    rep.partial = bool(a.no_e1 or a.no_bounded or a.group)
+    # runs against a scratch copy (VERIF_REPO != /repo: seeded changes, self-tests) never overwrite the registered evidence
+    rep.partial = bool(a.no_e1 or a.no_bounded or a.group or str(core.REPO) != "/repo")
     if not a.no_e1:
         try:
             run_e1(rep, a.prop, mod, a.tier)
